@@ -54,11 +54,9 @@ Definition stmt_equiv (s s' : stmt Z) : Prop :=
 
 (* valid directive calls of a theory-free step *)
 Definition nonneg (l : list Z) : Prop := Forall (fun a => 0 <= a) l.
-Definition good_name (n : list Z) : Prop :=
-  match n with
-  | c :: r => RefParse.is_name_start c = true /\ forallb is_ident_char r = true /\ n <> kw_not
-  | [] => False
-  end.
+(* names and #show terms the reference parser reads back (RefParse.good_nameb): an identifier other than "not",
+   optionally followed directly by a parenthesised, balanced argument list (quoted strings inside are opaque) *)
+Definition good_name (n : list Z) : Prop := good_nameb n = true.
 Definition call_ok (c : call) : Prop :=
   match c with
   | CRule _ h _ => nonneg h
